@@ -1,11 +1,14 @@
 -------------------------- MODULE Trace_Bitemporal --------------------------
 (* Trace validation for property C17.  Every line of the log is ONE recorded history of the     *)
 (* real code:  [id, events]  with the events, in the order of the public calls,                 *)
-(*   [op |-> "merge", s, v]              store = bi_merge(store, Bi(v, s))   (a new publication) *)
-(*   [op |-> "again", s, v, rows]        the same call for a version already in the store; rows  *)
-(*                                       = the <<date, cell>> the real store held at stamp s     *)
-(*   [op |-> "read", T, what, ok, res]   bi_read(store, asof = T, what) and what it returned     *)
-(* (v, rows, res: sequences of <<date, cell>>; dates, stamps, T: integers; cell 0 = NaN).        *)
+(*   [op |-> "merge", w, z, v]           store = bi_merge(store, Bi(v, stamp))  (a new publication)*)
+(*   [op |-> "again", w, z, v, rows]     the same call for a version already in the store; rows  *)
+(*                                       = the <<date, cell>> the real store held at that instant*)
+(*   [op |-> "read", w, z, what, spelling, ok, res]                                              *)
+(*                                       bi_read(store, asof = T, what) and what it returned     *)
+(* (v, rows, res: sequences of <<date, cell>>; cell 0 = NaN; <<w, z>> = the stamp / read time as *)
+(* it was WRITTEN for the code: wall clock w in the zone with offset z - the instant is what     *)
+(* Bitemporal!Instant makes of it, here, not in the driver; spelling = the Python type of T).    *)
 (*                                                                                             *)
 (* One TLC behaviour per history (c = the line, l = events consumed), the abstract state         *)
 (* (pubs, store, out) as variables, stepped by the SAME Merge / Read actions as the model-       *)
@@ -21,22 +24,23 @@ StrictlyByDate(q) == \A i \in 1..(Len(q) - 1) : q[i][1] < q[i + 1][1]
 
 \* the verdict on one logged read: "" or the name of the clause of the property it contradicts
 JudgeRead(e) ==
-    IF e.ok = 0 THEN "read_raised"
+    IF e.ok = 0 THEN (IF e.spelling \in RefusableT THEN "" ELSE "read_raised")      \* named deviation DateRefused
     ELSE IF ~StrictlyByDate(e.res) THEN "read_duplicate_rows"
     ELSE LET f == SeqMap(e.res)
-             want == PublishedBy(pubs, e.T)
+             T == Instant(<<e.w, e.z>>)
+             want == PublishedBy(pubs, T)
          IN  IF DOMAIN f \ want # {} THEN "look_ahead_row"          \* a date first published after T
              ELSE IF want \ DOMAIN f # {} THEN "missing_row"
-             ELSE IF AdmitsRead(pubs, e.T, e.what, f) THEN ""
+             ELSE IF AdmitsRead(pubs, T, e.what, f) THEN ""
              ELSE IF e.what = -1 THEN "read_latest" ELSE "read_first"
 
 \* the mechanism model is carried along and must keep agreeing with the law on these (longer,
 \* wider) histories too; a disagreement is a defect of the specification, not of the code
-JudgeModel(e) == IF AdmitsRead(pubs, e.T, e.what, ReadStore(store, e.T, e.what)) THEN "" ELSE "spec_mechanism_vs_law"
+JudgeModel(e) == IF AdmitsRead(pubs, Instant(<<e.w, e.z>>), e.what, ReadStore(store, <<e.w, e.z>>, e.what)) THEN "" ELSE "spec_mechanism_vs_law"
 
 Report(v) == IF v = "" THEN TRUE ELSE Reject(1000 * c + l + 1, v)
 
-TraceMerge(e) == Merge(e.s, SeqMap(e.v))
+TraceMerge(e) == Merge(<<e.w, e.z>>, SeqMap(e.v))
 \* "already in the store" is a precondition on the REAL store: every row of the version is among
 \* the rows the real store held at that stamp.  Not a publication: pubs stays.  The mechanism
 \* model follows only when the version is in ITS store too (after a misbehaviour of the real
@@ -44,9 +48,9 @@ TraceMerge(e) == Merge(e.s, SeqMap(e.v))
 TraceAgain(e) == /\ Report(IF \A i \in DOMAIN e.v : \E j \in DOMAIN e.rows : e.rows[j] = e.v[i]
                            THEN "" ELSE "again_not_in_store")
                  /\ pubs' = pubs
-                 /\ store' = IF InStore(store, e.s, SeqMap(e.v)) THEN MergeStore(store, e.s, SeqMap(e.v)) ELSE store
+                 /\ store' = IF InStore(store, <<e.w, e.z>>, SeqMap(e.v)) THEN MergeStore(store, <<e.w, e.z>>, SeqMap(e.v)) ELSE store
                  /\ out' = NoOut
-TraceRead(e)  == /\ Read(e.T, e.what)
+TraceRead(e)  == /\ Read(<<e.w, e.z>>, e.what)
                  /\ Report(JudgeRead(e))
                  /\ Report(JudgeModel(e))
 
